@@ -181,7 +181,7 @@ def contexts(tier):
             out.append((Ctx("co:" + c.name, c.prefix, c.suffix, domain=c.domain), max(1, n - 1) if q else n))
     # several parenthesised groups / type names in one expression: coordinates of different '(' tokens may coincide
     cls = {"?V": ["x", "1"], "?O": ["+", "*", ","]}
-    for i, pat in enumerate(["x = ( T ) ?V ?O ( ?V ) ?O sizeof ( T ) ?O ( ?V ) ;", "x = sizeof ( T ) ?O ( ?V ) ?O ( T ) { ?V } ?O ( ?V ) ;", "if ( ( T ) ?V ) ( ?V ) ; else ( ( ?V ) ) ;",
+    for i, pat in enumerate(["x = ( T ) ?V ?O ( ?V ) ?O sizeof ( T ) ?O ( ?V ) ;", "x = sizeof ( T ) ?O ( ?V ) ?O ( T ) { ?V } ?O ( ?V ) ;", "x = ( T ) ?V ?O ( int ) ?V ?O ( char ) ( T ) ?V ;", "x = sizeof ( T ) ?O sizeof ( int ) ?O ( T ) { ?V } . x ?O ( int ) { ?V } ;", "if ( ( T ) ?V ) ( ?V ) ; else ( ( ?V ) ) ;",
                              # operators whose coordinate comes from a compound-literal operand, designated or not
                              "- ( T ) { . x = ?V } . x ?O ( T ) { ?V } ;", "( T ) { [ 1 ] = ?V , 1 } [ 1 ] ++ ; return ( T ) { . x = ?V } . x + 1 ;"]):
         out.append((PatCtx(f"co:parens{i}:{pat}", c05.FN, pat, ["}"], cls), 0))
